@@ -447,6 +447,16 @@ func compare(a string, b string, caseless bool) bool {
 }
 
 func (es *SearchEngineState) MATCH(value string, not bool, caseless bool) {
+	if len(value) == 0 {
+		// the empty string (e.g. a back-reference to an empty capture) matches without consuming
+		if not {
+			es.BACKTRACK()
+		} else {
+			es.NEXT()
+		}
+		return
+	}
+
 	comp := es.READ(len(value))
 
 	if len(comp) == 0 {
